@@ -718,7 +718,27 @@ func (env *Env) callExpr(x *ECall) (*Term, types.Type) {
 		if v, ok := pendingNums[t]; ok {
 			return IntLit(v), nil
 		}
+		if t.sort.IsBV() && t.sort.Bits() <= 64 {
+			return U64(t), nil
+		}
 		return Op("bv2nat", SInt, t), nil
+	case "L":
+		t, _ := arg(0)
+		return L64(env.resolveNum(t)), types.Typ[types.Uint64]
+	case "S":
+		t, _ := arg(0)
+		if v, ok := pendingNums[t]; ok {
+			return IntLit(v), nil
+		}
+		return S64(t), nil
+	case "imax", "imin":
+		a, _ := arg(0)
+		b, _ := arg(1)
+		a, b = env.resolveNum(a), env.resolveNum(b)
+		if x.Fun == "imax" {
+			return Ite(Op(">=", SBool, a, b), a, b), nil
+		}
+		return Ite(Op("<=", SBool, a, b), a, b), nil
 	case "fresh":
 		t, _ := arg(0)
 		if t.sort == SSlice {
